@@ -693,8 +693,8 @@ func c07One(c *Ctx, m *Model, cs c07Case) {
 		midMu.Unlock()
 		doOp(op)
 		w.push(ch, 1<<30)
-		deadline := time.Now().Add(2 * time.Second)
-		for time.Now().Before(deadline) {
+		deadline := newPatience(2 * time.Second)
+		for !deadline.expired() {
 			w.mu.Lock()
 			done := w.delivers >= w.expected && w.polled == w.pushed
 			w.mu.Unlock()
@@ -837,8 +837,8 @@ func c07One(c *Ctx, m *Model, cs c07Case) {
 	// writes have stopped: hand over the rest of the change log and wait until nothing happens any more
 	w.push(ch, 1<<30)
 	settled := false
-	deadline := time.Now().Add(8 * time.Second)
-	for time.Now().Before(deadline) {
+	deadline := newPatience(8 * time.Second)
+	for !deadline.expired() {
 		w.mu.Lock()
 		before := w.seq
 		donePoll := w.polled == w.pushed
@@ -881,7 +881,7 @@ func c07One(c *Ctx, m *Model, cs c07Case) {
 	ech <- errors.New("harness: end of the change log")
 	select {
 	case <-pollDone:
-	case <-time.After(3 * time.Second):
+	case <-patient(3 * time.Second):
 		rep.Fail("impl_ne_spec", nil, cs, map[string]interface{}{"what": "RunPollLoop did not end after the stream reported an error"})
 		return
 	}
